@@ -29,6 +29,7 @@ var (
 	fDeadline = flag.Duration("w.deadline", 0, "stop starting new runs after this much wall time")
 	fTrace    = flag.Bool("w.trace", false, "keep the textual event log for every run (determinism self-test)")
 	fRepDir   = flag.String("w.repdir", "", "directory for replay files")
+	fOnly     = flag.String("w.onlyclass", "", "comma-separated violation classes of interest; any other class is skipped like a listed finding (used to regenerate witnesses on old trees)")
 )
 
 type runRec struct {
@@ -232,6 +233,9 @@ func TestWorker(t *testing.T) {
 		}
 		// confirm in replay mode, minimise, write the replay file
 		r.Known = isKnown(known, res.Class)
+		if *fOnly != "" && !isKnown(strings.Split(*fOnly, ","), res.Class) {
+			r.Known = true
+		}
 		conf, _ := runOnce(t, w, *fProp, *fTier, simrt.Config{Seed: 1, Replay: true, PlanVec: res.PlanVec, RunVec: res.RunVec, Strategy: -1})
 		switch {
 		case conf.Verdict != "violation" || conf.Class != res.Class:
